@@ -63,6 +63,10 @@ def market_and_configs():
         dict(base, name='twosrc-late', market='twosrc', alpha={'kind': 'fixed', 'weights': {'EQ:AAA': 0.6, 'EQ:BBB': 0.4}},
              rebalance='daily', long_only=True, buffer=0.05,
              start=rm.utc(datetime.date(2020, 2, 28), 14, 30).isoformat()),
+        # the same dates as the first configuration, the start written as a plain day (00:00) instead of 14:30
+        dict(base, name='fixed-longonly-daily-from-midnight',
+             alpha={'kind': 'fixed', 'weights': {'EQ:CCC': 0.2, 'EQ:AAA': 0.5, 'EQ:BBB': 0.3}},
+             rebalance='daily', long_only=True, buffer=0.05, start=rm.utc(datetime.date(2020, 2, 24), 0, 0).isoformat()),
         dict(base, name='late-data-momentum', market='late', alpha={'kind': 'mom_top1', 'lookback': 1}, rebalance='daily',
              long_only=True, buffer=0.05),
     ]
